@@ -94,7 +94,7 @@ func cmdCheck(args []string) {
 	thorough := *tier == "thorough"
 	timeoutS := 90
 	if thorough {
-		timeoutS = 75
+		timeoutS = 180
 	}
 	seed := 0
 	fmt.Sscanf(os.Getenv("VERIF_SEED"), "%d", &seed)
